@@ -37,6 +37,9 @@ func c11Plan(p *PRNG, cfg Config, tier string) Plan {
 	if f, ok := extraHostile["oracle"]; ok {
 		plan = f(p, cfg, plan)
 	}
+	if f, ok := extraHostile["avs"]; ok && p.Chance(1, 2) {
+		plan = f(p, cfg, plan)
+	}
 	plan = Epilogue(plan, cfg, int(cfg.UnbondEpochs)+2)
 	// a benign transfer must still work at the very end
 	plan.Blocks = append(plan.Blocks, Block{DtNs: 1e9, Ops: []Op{{K: "send", A: 0, C: 1, Amt: "=1"}}})
